@@ -70,8 +70,12 @@ out.append('''
 | C20 | 2 | file length, every header word (STL) / every byte of the file (GLB) | STL binary and GLB chunk loop: allocation <= 64 L + 4096, loop progress, no chunk-header position read twice (lasso), exit kinds, unwinding assertion | 9 s |
 
 `vp check` on the whole set: about 18 minutes.  Thorough tiers widen counts / ranges as written in each unit's `bounds`
-string; every thorough command was run end-to-end once (wall times in `evidence/` of that run; those which exceeded
-25 minutes were cut down until they fit).
+string; every thorough command was run end-to-end once on this machine (two at a time, so the figures are pessimistic):
+C20 6 s, C02 26 s, C11 32 s, C13 49 s, C03 83 s, C18 169 s, C19 175 s, C07 219 s, C01 241 s, C14 286 s, C10 565 s, C06 827 s,
+C05 953 s, C15 1308 s, C17 1502 s, C04 1509 s, C12 1548 s, C09 1593 s.  Units that ran into the 1500 s per-unit hard timeout in
+that run (C04 compose scale-scale / sim1-scale, C14 full cut product, C15 ten counts under rotated placements, the full
+two-step product of C09) were cut down until the tier fits in < 27 minutes; the first end-to-end thorough run also
+produced two further genuine defects (C13: cyclic transposes, `BinaryRunLengthEncoding.stripped`) and one false alarm (C01 near-identity band, section 10).
 
 ### 9.3 Sub-claims dropped from the design (decided honestly as outside reach, not switched to another technique)
 * C01: `vertex_normals`, ray / nearest structures, kd-tree, convex hull, principal axes are not compared (trig weights,
@@ -116,6 +120,15 @@ string; every thorough command was run end-to-end once (wall times in `evidence/
   proxy (truncated transforms), deep copies of object arrays sharing their elements, in-place `*=` of a float array by a
   symbolic operand, Fractions rounded by `astype(float)`, `int ** -1`.  A non-reproducing model is reported as inconclusive,
   never as a violation.
+
+Misses of the machinery (the other direction), all exposed by seeded changes and corrected in general form: the C10 / C17
+scenes never really *instanced* a geometry (`Scene.add_geometry` registers a renamed copy; instancing needs
+`graph.update(geometry=name)`); the numpy proxy's `asanyarray(x, dtype)` always copied, hiding aliasing that numpy's
+no-copy semantics create; in the C20 stub environment an exception raised because a stub lacked an operation was counted
+as a clean loader failure, `int(<symbolic word>)` silently became 0, and header words were fresh per read instead of a
+function of the file position (now: symbolic bytes selected by position); a non-terminating loop only showed as a hung unit
+(now: unwinding assertion on reads + "no chunk-header position read twice").  Two harness-level hangs were removed: z3's python
+pretty-printer on large terms in evidence samples, and the reachability-witness loop retrying every path after a timeout.
 
 ## 11. Genuine defects
 Each was first produced by its check (solver model or validation sample), replayed on the unmodified float code, then
